@@ -109,12 +109,67 @@ fn run_children(bin: &str, archive: &str, scratch: &str, offsets: &[usize]) -> B
     results.into_inner().unwrap()
 }
 
+/// Copies archive `src` to `dst` through the real container API, adding a stream "verif-pad" (unknown to
+/// the reader, like the extra streams of other AGC writers) with one raw part in the middle of the file.
+/// The part is a list of little-endian u64 values which, when a crash point falls right behind one of
+/// them, are what the reader takes for the directory length: 2^64-1 .. 2^64-9, "one more than fits"
+/// (n-7), n, n+1, 2^32+n and a 40-byte run of 0xFF. Every byte of a neighbouring value is >= 0x80, so
+/// every 8-byte window that ends inside the pad decodes to a length larger than the prefix: no prefix
+/// can be a well-formed archive by construction, and "rejected with an error" is the only right answer.
+fn with_trailer_pad(src: &str, dst: &str) -> Result<(), String> {
+    let mut r = Archive::new_reader();
+    r.open(src).map_err(|e| e.to_string())?;
+    let mut w = Archive::new_writer();
+    w.open(dst).map_err(|e| e.to_string())?;
+    let ns = r.get_num_streams();
+    let mut ids = Vec::new();
+    for s in 0..ns {
+        let id = w.register_stream(r.get_stream_name(s).ok_or("stream name")?);
+        w.set_raw_size(id, r.get_raw_size(s));
+        ids.push(id);
+    }
+    let pad_id = w.register_stream("verif-pad");
+    let mut off: u64 = 0;
+    for s in 0..ns {
+        for p in 0..r.get_num_parts(s) {
+            let (data, meta) = r.get_part_by_id(s, p).map_err(|e| e.to_string())?;
+            w.add_part(ids[s], &data, meta).map_err(|e| e.to_string())?;
+            off += data.len() as u64 + varint_len(meta);
+        }
+        if s == ns / 2 {
+            let mut pad: Vec<u8> = vec![0xFF; 40];
+            let start = off + varint_len(0);
+            let hi = 0x8080_8080_8080_8080u64;
+            for j in 0..9u64 { pad.extend_from_slice(&(u64::MAX - j).to_le_bytes()); pad.extend_from_slice(&hi.to_le_bytes()); }
+            for d in [0i64, 1, 2, 8, 9] {
+                // value = (length of the prefix that ends right behind it) - 8 + d, d >= 1 would not fit
+                let n = start + pad.len() as u64 + 8;
+                pad.extend_from_slice(&((n as i64 - 8 + d.max(1)) as u64).to_le_bytes());
+                pad.extend_from_slice(&hi.to_le_bytes());
+                let n = start + pad.len() as u64 + 8;
+                pad.extend_from_slice(&((1u64 << 32) + n + d as u64).to_le_bytes());
+                pad.extend_from_slice(&hi.to_le_bytes());
+            }
+            pad.extend_from_slice(&[0xFF; 16]);
+            w.add_part(pad_id, &pad, 0).map_err(|e| e.to_string())?;
+            off += pad.len() as u64 + varint_len(0);
+        }
+    }
+    w.close().map_err(|e| e.to_string())
+}
+
+fn varint_len(v: u64) -> u64 {
+    let mut b = Vec::new();
+    ragc_common::varint::write_varint(&mut b, v).unwrap();
+    b.len() as u64
+}
+
 pub fn run() -> i32 {
     let rep = Report::new(
         "C14",
         "main",
         "fault_enumeration",
-        "every strict prefix length n of finished archives (1 sample; 3 samples with splits; 101 samples; thorough: one > 4 MiB, sampled) is written to a file and opened with Archive::open and Decompressor::open inside child processes (RLIMIT_AS 1 GiB) of BOTH build profiles (overflow checks off / on), and with `ragc listset` / `ragc getset` on a subset; oracle: a clean error value (CLI: non-zero exit without panic); panic, abort, timeout or a usable handle are violations. non-trivial = prefixes that still contain the complete data area (only footer bytes missing)",
+        "every strict prefix length n of finished archives (1 sample; 3 samples with splits; the same with an extra raw stream holding boundary values of the directory-length field - 2^64-1..2^64-9, one-more-than-fits, runs of 0xFF; 101 samples; one whose length field at len-1 passes a plain range check; thorough: one > 4 MiB, sampled) is written to a file and opened with Archive::open and Decompressor::open inside child processes (RLIMIT_AS 1 GiB) of BOTH build profiles (overflow checks off / on), and with `ragc listset` / `ragc getset` on a subset; oracle: a clean error value (CLI: non-zero exit without panic); panic, abort, timeout or a usable handle are violations. non-trivial = prefixes that still contain the complete data area (only footer bytes missing)",
     );
     quiet_panics();
     set_zstd_cap(true);
@@ -136,7 +191,10 @@ pub fn run() -> i32 {
     // length field then decodes to a value that passes a plain range check and garbage is parsed as directory
     let mid: Vec<Sample> = vec![("mid#0".to_string(), vec![("c0".to_string(), rng.bases(700_000))])];
     sets.push(("mid-size".into(), mid, false));
-    if th {
+    // light mode (used as a part of C18): the 3-sample archive and its trailer-boundary variant, library level only
+    let light = std::env::var("RVX_C14_LIGHT").is_ok();
+    if light { sets.retain(|s| s.0 == "3-samples"); }
+    if th && !light {
         let big: Vec<Sample> = vec![("big#0".to_string(), (0..6).map(|i| (format!("c{i}"), rng.bases(3_200_000))).collect())];
         sets.push(("over-4MiB".into(), big, false));
     }
@@ -145,11 +203,28 @@ pub fn run() -> i32 {
     let mut total = 0u64;
     let mut nontriv = 0u64;
     let mut per = Vec::new();
+    let mut built: Vec<(String, String, bool, String)> = Vec::new();
     for (name, samples, all_offsets) in &sets {
         let path = format!("{}/{}.agc", dir.display(), name);
         let cfg = Cfg { k: 11, segment_size: if name == "over-4MiB" || name == "mid-size" { 60000 } else { 50 }, min_match: 15, threads: 4, ..Cfg::default() };
         if let Err(e) = build_archive(&path, samples, &cfg, 600) { rep.machinery_error(format!("cannot build {name}: {:?}", e)); continue; }
-        let bytes = std::fs::read(&path).unwrap();
+        built.push((name.clone(), path.clone(), *all_offsets, samples[0].0.clone()));
+        if name == "3-samples" {
+            // the same archive re-written through the real container writer with one extra stream whose
+            // raw part holds boundary values of the trailing length field (see trailer_pad)
+            let p2 = format!("{}/trailer-boundaries.agc", dir.display());
+            match with_trailer_pad(&path, &p2) {
+                Ok(()) => {
+                    let ok = matches!(guarded(|| extract_all(&p2)), Ok(Ok(ref got)) if *got == expected(samples));
+                    if ok { built.push(("trailer-boundaries".into(), p2, true, samples[0].0.clone())); }
+                    else { rep.machinery_error("the archive with the extra pad stream does not extract to the input".into()); }
+                }
+                Err(e) => rep.machinery_error(format!("cannot build trailer-boundaries archive: {e}")),
+            }
+        }
+    }
+    for (name, path, all_offsets, first) in &built {
+        let bytes = std::fs::read(path).unwrap();
         let len = bytes.len();
         let footer_size = u64::from_le_bytes(bytes[len - 8..].try_into().unwrap()) as usize;
         let footer_start = len - 8 - footer_size;
@@ -163,7 +238,7 @@ pub fn run() -> i32 {
         };
         for (profile, bin) in [("release(no overflow checks)", &seq_bin), ("dev-like(overflow checks)", &chk_bin)] {
             if !std::path::Path::new(bin).exists() { rep.machinery_error(format!("child binary {bin} missing")); continue; }
-            let res = run_children(bin, &path, &dir.to_string_lossy(), &offsets);
+            let res = run_children(bin, path, &dir.to_string_lossy(), &offsets);
             if res.len() != offsets.len() { rep.machinery_error(format!("{name}/{profile}: {} of {} offsets produced a result", res.len(), offsets.len())); }
             total += res.len() as u64;
             let mut bad = 0;
@@ -182,12 +257,12 @@ pub fn run() -> i32 {
         }
         // CLI level on a subset
         let ragc = cli::ragc_bin(false);
-        if std::path::Path::new(&ragc).exists() {
+        if light {
+        } else if std::path::Path::new(&ragc).exists() {
             let step = (len / if th { 120 } else { 40 }).max(1);
             let mut offs: Vec<usize> = (0..len).step_by(step).collect();
             offs.extend([0, 7, 8, footer_start, len - 9, len - 8, len - 1]);
             offs.sort(); offs.dedup();
-            let first = samples[0].0.clone();
             par_for(offs.len(), ncpu(), |i| {
                 let n = offs[i];
                 let p = format!("{}/cli-{}-{}.agc", dir.display(), name, n);
